@@ -21,32 +21,31 @@ Definition clean_ok (st : state) (s : sess) : Prop :=
 Definition covers (s : sess) : Prop :=
   In (PU (se_user s)) (se_keys s) /\ forall r, In r (snd (se_view s)) -> In (PR r) (se_keys s).
 
+(* (a session whose user is gone and that is not dirty is a BLIP connection whose last reload failed) *)
 Definition sess_ok (st : state) (s : sess) : Prop :=
-  covers s /\ users st (se_user s) <> None /\ (se_dirty s = false -> clean_ok st s).
+  covers s /\ (se_dirty s = false -> users st (se_user s) <> None -> clean_ok st s).
 
 Definition SInv (ss : sstate) : Prop :=
   Inv (ss_st ss) /\ forall id s, In (id, s) (ss_sess ss) -> sess_ok (ss_st ss) s.
 
-(* no principal document is deleted between the two states *)
-Definition keeps (st st' : state) : Prop :=
-  (forall u, users st u <> None -> users st' u <> None) /\ (forall r, roles st r <> None -> roles st' r <> None).
-
 (* ---------- stability of a clean session ---------- *)
-Lemma changed_doc_user st st' u ur :
-  keeps st st' -> users st u = Some ur -> changed_doc st st' (PU u) = false -> users st' u = Some ur.
+(* with deletions notified, a key that was not notified names a principal whose record is unchanged *)
+Lemma changed_doc_user st st' u :
+  changed_doc true st st' (PU u) = false -> users st' u = users st u.
 Proof.
-  intros [K _] E H. cbn [changed_doc] in H. destruct (users st' u) as [ur'|] eqn:E'.
-  - rewrite E in H. cbn [option_eqb] in H. apply negb_false_iff in H. apply urec_eqb_true in H. congruence.
-  - exfalso. apply (K u); [congruence | exact E'].
+  cbn [changed_doc andb]. destruct (users st' u) as [ur'|] eqn:E'.
+  - destruct (users st u) as [ur|] eqn:E; cbn [option_eqb]; [|discriminate].
+    intros H. apply negb_false_iff in H. apply urec_eqb_true in H. congruence.
+  - destruct (users st u); [discriminate | reflexivity].
 Qed.
 
 Lemma changed_doc_role st st' r :
-  keeps st st' -> changed_doc st st' (PR r) = false -> roles st' r = roles st r.
+  changed_doc true st st' (PR r) = false -> roles st' r = roles st r.
 Proof.
-  intros [_ K] H. cbn [changed_doc] in H. destruct (roles st' r) as [rr'|] eqn:E'.
-  - destruct (roles st r) as [rr|] eqn:E; cbn [option_eqb] in H; [|discriminate].
-    apply negb_false_iff in H. apply rrec_eqb_true in H. congruence.
-  - destruct (roles st r) eqn:E; [|reflexivity]. exfalso. apply (K r); [congruence | exact E'].
+  cbn [changed_doc andb]. destruct (roles st' r) as [rr'|] eqn:E'.
+  - destruct (roles st r) as [rr|] eqn:E; cbn [option_eqb]; [|discriminate].
+    intros H. apply negb_false_iff in H. apply rrec_eqb_true in H. congruence.
+  - destruct (roles st r); [discriminate | reflexivity].
 Qed.
 
 Lemma user_spec_stable st st' u ur lch lro c :
@@ -71,19 +70,27 @@ Proof.
 Qed.
 
 Lemma clean_stable st st' s :
-  Inv st -> Inv st' -> keeps st st' -> covers s -> clean_ok st s ->
-  existsb (changed_doc st st') (se_keys s) = false -> clean_ok st' s.
+  Inv st -> Inv st' -> covers s -> clean_ok st s ->
+  existsb (changed_doc true st st') (se_keys s) = false -> clean_ok st' s.
 Proof.
-  intros I I' K [Cu Cr] [ur [lch [lro [E [Hc [Hr [Hs [Hv Hro]]]]]]]] Hn.
-  assert (Hk : forall p, In p (se_keys s) -> changed_doc st st' p = false).
-  { intros p Hp. destruct (changed_doc st st' p) eqn:Ep; [|reflexivity].
-    assert (existsb (changed_doc st st') (se_keys s) = true) by (apply existsb_exists; exists p; split; assumption). congruence. }
-  pose proof (changed_doc_user st st' _ ur K E (Hk _ Cu)) as E'.
+  intros I I' [Cu Cr] [ur [lch [lro [E [Hc [Hr [Hs [Hv Hro]]]]]]]] Hn.
+  assert (Hk : forall p, In p (se_keys s) -> changed_doc true st st' p = false).
+  { intros p Hp. destruct (changed_doc true st st' p) eqn:Ep; [|reflexivity].
+    assert (existsb (changed_doc true st st') (se_keys s) = true) by (apply existsb_exists; exists p; split; assumption). congruence. }
+  assert (E' : users st' (se_user s) = Some ur) by (rewrite (changed_doc_user st st' _ (Hk _ Cu)); exact E).
   assert (Hroles : forall r, In r lro -> role_settled st r /\ roles st' r = roles st r).
-  { intros r Hin. split; [apply Hs; exact Hin|]. apply (changed_doc_role st st' r K). apply Hk, Cr, Hro. exact Hin. }
+  { intros r Hin. split; [apply Hs; exact Hin|]. apply (changed_doc_role st st' r). apply Hk, Cr, Hro. exact Hin. }
   exists ur, lch, lro. repeat (split; [assumption|]). split; [|split; [|exact Hro]].
   - intros r Hin. destruct (Hroles r Hin) as [A B]. unfold role_settled in *. rewrite B. exact A.
   - intros c. rewrite (Hv c). symmetry. apply (user_spec_stable st st' _ ur lch lro c); assumption.
+Qed.
+
+(* an un-notified user key also means: the user exists now iff it existed before *)
+Lemma unchanged_user_exists st st' s :
+  covers s -> existsb (changed_doc true st st') (se_keys s) = false -> users st' (se_user s) = users st (se_user s).
+Proof.
+  intros [Cu _] Hn. apply changed_doc_user. destruct (changed_doc true st st' (PU (se_user s))) eqn:E; [|reflexivity].
+  assert (existsb (changed_doc true st st') (se_keys s) = true) by (apply existsb_exists; eexists; split; eassumption). congruence.
 Qed.
 
 (* ---------- a load leaves the user and the roles it names settled ---------- *)
@@ -107,40 +114,6 @@ Proof.
   - destruct (load_role_chans (st, chs) r) as [st1 chs1] eqn:E.
     assert (E1 : st1 = fst (rebuild_role st r)) by (rewrite <- (fst_load_role_chans st chs r), E; reflexivity).
     apply IH. destruct H as [[->|H]|H]; [right | left; exact H | right]; rewrite E1; apply rebuild_role_settles; auto.
-Qed.
-
-Lemma keeps_refl st : keeps st st.
-Proof. split; auto. Qed.
-
-Lemma keeps_trans a b c : keeps a b -> keeps b c -> keeps a c.
-Proof. intros [A1 A2] [B1 B2]. split; auto. Qed.
-
-Lemma keeps_rebuild_role st r : keeps st (fst (rebuild_role st r)).
-Proof.
-  unfold rebuild_role. destruct (roles st r) as [rr|] eqn:Er; [|apply keeps_refl]. destruct (r_del rr); [apply keeps_refl|].
-  split; cbn [fst set_roles users roles]; [auto|]. intros r0 H. unfold upd. destruct (r0 =? r); [discriminate | exact H].
-Qed.
-
-Lemma keeps_rebuild_user st u : keeps st (fst (rebuild_user st u)).
-Proof.
-  unfold rebuild_user. destruct (users st u) as [ur|] eqn:Eu; [|apply keeps_refl].
-  split; cbn [fst set_users users roles]; [|auto]. intros u0 H. unfold upd. destruct (u0 =? u); [discriminate | exact H].
-Qed.
-
-Lemma keeps_fold_roles ro : forall st chs, keeps st (fst (fold_left load_role_chans ro (st, chs))).
-Proof.
-  induction ro as [|r ro IH]; intros st chs; cbn [fold_left]; [apply keeps_refl|].
-  destruct (load_role_chans (st, chs) r) as [st1 chs1] eqn:E.
-  assert (E1 : st1 = fst (rebuild_role st r)) by (rewrite <- (fst_load_role_chans st chs r), E; reflexivity).
-  apply (keeps_trans st st1); [rewrite E1; apply keeps_rebuild_role | apply IH].
-Qed.
-
-Lemma keeps_load_user st u : keeps st (fst (load_user st u)).
-Proof.
-  unfold load_user. destruct (rebuild_user st u) as [st1 our] eqn:E.
-  assert (E1 : st1 = fst (rebuild_user st u)) by (rewrite E; reflexivity).
-  destruct our as [ur|]; cbn [fst]; [|rewrite E1; apply keeps_rebuild_user].
-  apply (keeps_trans st st1); [rewrite E1; apply keeps_rebuild_user | apply keeps_fold_roles].
 Qed.
 
 (* what a successful load establishes *)
@@ -184,18 +157,18 @@ Qed.
 
 (* ---------- every operation preserves the invariant ---------- *)
 Lemma mark_ok st st' s :
-  Inv st -> Inv st' -> keeps st st' -> sess_ok st s -> sess_ok st' (mark st st' s).
+  Inv st -> Inv st' -> sess_ok st s -> sess_ok st' (mark true st st' s).
 Proof.
-  intros I I' K [C [Hu Hc]]. split; [exact C|]. split; [apply (proj1 K); exact Hu|].
-  cbn [mark se_dirty]. intros Hd. apply orb_false_iff in Hd. destruct Hd as [Hd Hn].
-  pose proof (clean_stable st st' s I I' K C (Hc Hd) Hn) as H. exact H.
+  intros I I' [C Hc]. split; [exact C|].
+  cbn [mark se_dirty se_user]. intros Hd Hex. apply orb_false_iff in Hd. destruct Hd as [Hd Hn].
+  apply (clean_stable st st' s I I' C); [|exact Hn]. apply (Hc Hd). rewrite <- (unchanged_user_exists st st' s C Hn). exact Hex.
 Qed.
 
 Lemma mark_all_ok st st' l :
-  Inv st -> Inv st' -> keeps st st' -> (forall id s, In (id, s) l -> sess_ok st s) ->
-  forall id s, In (id, s) (mark_all st st' l) -> sess_ok st' s.
+  Inv st -> Inv st' -> (forall id s, In (id, s) l -> sess_ok st s) ->
+  forall id s, In (id, s) (mark_all true st st' l) -> sess_ok st' s.
 Proof.
-  intros I I' K H id s Hin. unfold mark_all in Hin. apply in_map_iff in Hin. destruct Hin as [[id0 s0] [E Hin]].
+  intros I I' H id s Hin. unfold mark_all in Hin. apply in_map_iff in Hin. destruct Hin as [[id0 s0] [E Hin]].
   inversion E. subst. cbn [snd]. apply mark_ok; try assumption. eapply H. exact Hin.
 Qed.
 
@@ -209,87 +182,64 @@ Proof.
   - intros H. right. apply IH. exact H.
 Qed.
 
-Lemma keeps_step st o : notified_op (SBase o) = true -> Inv st -> keeps st (fst (step st o)).
+Lemma load_missing_user st u : users st u = None -> fst (load_user st u) = st /\ snd (load_user st u) = OUser None.
+Proof. intros E. unfold load_user, rebuild_user. rewrite E. split; reflexivity. Qed.
+
+Lemma load_output_shape st u : Inv st ->
+  match users st u with
+  | Some _ => exists chs ros, snd (load_user st u) = OUser (Some (chs, ros))
+  | None => snd (load_user st u) = OUser None
+  end.
 Proof.
-  intros Hn I. destruct o as [d parent r b|d|u c r|r c|r p|u|u|r|u c r|r c]; cbn [notified_op] in Hn; try discriminate; cbn [step].
-  - (* put *)
-    unfold put. destruct b as [v| |]; try apply keeps_refl;
-      (destruct (existsb _ _); [apply keeps_refl|]; cbv zeta; destruct (same_winner _ _); cbn [fst]; split; cbn [users roles]; auto;
-       [intros u0 H; unfold inval_users; destruct (users st u0); [discriminate | congruence] |
-        intros r0 H; unfold inval_rolemap; destruct (roles st r0); [discriminate | congruence]]).
-  - (* set user *)
-    unfold set_user. destruct (rebuild_user st u) as [st1 our] eqn:E.
-    assert (E1 : st1 = fst (rebuild_user st u)) by (rewrite E; reflexivity). cbn [fst].
-    apply (keeps_trans st st1); [rewrite E1; apply keeps_rebuild_user|]. split; cbn [set_users users roles]; [|auto].
-    intros u0 H. unfold upd. destruct (u0 =? u); [discriminate | exact H].
-  - (* set role *)
-    unfold set_role. destruct (rebuild_role st r) as [st1 orr] eqn:E.
-    assert (E1 : st1 = fst (rebuild_role st r)) by (rewrite E; reflexivity). cbn [fst].
-    apply (keeps_trans st st1); [rewrite E1; apply keeps_rebuild_role|]. split; cbn [set_roles users roles]; [auto|].
-    intros r0 H. unfold upd. destruct (r0 =? r); [discriminate | exact H].
-  - (* soft delete of a role *)
-    destruct p; [discriminate|]. unfold del_role. destruct (rebuild_role st r) as [st1 orr] eqn:E.
-    assert (E1 : st1 = fst (rebuild_role st r)) by (rewrite E; reflexivity).
-    destruct orr as [rr|]; [|cbn [fst]; rewrite E1; apply keeps_rebuild_role].
-    destruct (r_del rr); cbn [fst]; [rewrite E1; apply keeps_rebuild_role|].
-    apply (keeps_trans st st1); [rewrite E1; apply keeps_rebuild_role|]. split; cbn [set_roles users roles]; [auto|].
-    intros r0 H. unfold upd. destruct (r0 =? r); [discriminate | exact H].
-  - apply keeps_load_user.
-  - rewrite fst_load_role. apply keeps_rebuild_role.
+  intros I. destruct (load_user_correct st u I) as [_ H]. destruct (users st u); [|exact H].
+  destruct H as [chs [ros [E _]]]. exists chs, ros. exact E.
 Qed.
 
-Lemma sstep_SInv ss o : notified_op o = true -> SInv ss -> SInv (fst (sstep ss o)).
+Lemma sstep_SInv ss o : notified_op o = true -> SInv ss -> SInv (fst (sstep true ss o)).
 Proof.
   intros Hn [I Hs]. destruct o as [bo|id u feed|id]; cbn [sstep].
   - (* somebody else's operation *)
     assert (I' : Inv (fst (step (ss_st ss) bo))).
     { apply step_Inv; [exact I|]. right. destruct bo; cbn in *; try reflexivity; discriminate. }
-    cbn [fst ss_st ss_sess]. split; [exact I'|].
-    apply mark_all_ok; [exact I | exact I' | apply keeps_step; assumption | exact Hs].
+    cbn [fst ss_st ss_sess]. split; [exact I'|]. apply mark_all_ok; assumption.
   - (* open *)
     unfold s_open. pose proof (load_user_correct (ss_st ss) u I) as [I' _].
-    pose proof (keeps_load_user (ss_st ss) u) as K.
-    assert (Ho : forall id0 s, In (id0, s) (mark_all (ss_st ss) (fst (load_user (ss_st ss) u)) (drop_sess id (ss_sess ss))) ->
+    assert (Ho : forall id0 s, In (id0, s) (mark_all true (ss_st ss) (fst (load_user (ss_st ss) u)) (drop_sess id (ss_sess ss))) ->
                                sess_ok (fst (load_user (ss_st ss) u)) s).
     { apply mark_all_ok; try assumption. intros id0 s H. apply (Hs id0). apply drop_sess_in in H. exact H. }
     destruct (snd (load_user (ss_st ss) u)) as [ok|[[chs ros]|]|orr] eqn:Eo; cbn [fst ss_st ss_sess]; try (split; [exact I' | exact Ho]).
     split; [exact I'|]. intros id0 s [E|H]; [|apply (Ho id0); exact H]. inversion E. subst id0 s. clear E.
     pose proof (load_user_clean (ss_st ss) u chs ros feed (keys_of u ros) I Eo) as C.
-    split; [|split; [|intros _; exact C]].
-    + split; cbn [se_user se_keys se_view snd]; [apply keys_of_covers; left; reflexivity | intros r Hr; apply keys_of_covers; right; exists r; auto].
-    + destruct C as [ur [lch0 [lro0 [E _]]]]. cbn [se_user ss_st] in *. congruence.
+    split; [|intros _ _; exact C].
+    split; cbn [se_user se_keys se_view snd]; [apply keys_of_covers; left; reflexivity | intros r Hr; apply keys_of_covers; right; exists r; auto].
   - (* request *)
     unfold s_request. destruct (find_sess id (ss_sess ss)) as [s|] eqn:Ef; [|split; assumption].
     destruct (se_dirty s) eqn:Ed; [|split; assumption].
-    pose proof (find_sess_in _ _ _ Ef) as Hin. destruct (Hs id s Hin) as [[Cu Cr] [Hex _]].
+    pose proof (find_sess_in _ _ _ Ef) as Hin. destruct (Hs id s Hin) as [[Cu Cr] _].
     pose proof (load_user_correct (ss_st ss) (se_user s) I) as [I' _].
-    pose proof (keeps_load_user (ss_st ss) (se_user s)) as K.
-    assert (Ho : forall id0 s0, In (id0, s0) (mark_all (ss_st ss) (fst (load_user (ss_st ss) (se_user s))) (drop_sess id (ss_sess ss))) ->
+    assert (Ho : forall id0 s0, In (id0, s0) (mark_all true (ss_st ss) (fst (load_user (ss_st ss) (se_user s))) (drop_sess id (ss_sess ss))) ->
                                 sess_ok (fst (load_user (ss_st ss) (se_user s))) s0).
     { apply mark_all_ok; try assumption. intros id0 s0 H. apply (Hs id0). apply drop_sess_in in H. exact H. }
-    destruct (snd (load_user (ss_st ss) (se_user s))) as [ok|[[chs ros]|]|orr] eqn:Eo.
-    + destruct (se_feed s); cbn [fst ss_st ss_sess]; split; try exact I'; try exact Ho.
-      intros id0 s0 [E|H]; [|apply (Ho id0); exact H]. inversion E. subst. split; [split; assumption|].
-      split; [apply (proj1 K); exact Hex | discriminate || (cbn [se_dirty]; intros _)].
-      exfalso. pose proof (load_user_correct (ss_st ss) (se_user s) I) as [_ Hc].
-      destruct (users (ss_st ss) (se_user s)); [destruct Hc as [? [? [Hc _]]]; congruence | congruence].
-    + cbn [fst ss_st ss_sess]. split; [exact I'|]. intros id0 s0 [E|H]; [|apply (Ho id0); exact H]. inversion E. subst id0 s0. clear E.
+    pose proof (load_output_shape (ss_st ss) (se_user s) I) as Sh.
+    destruct (users (ss_st ss) (se_user s)) as [ur|] eqn:Eu.
+    + destruct Sh as [chs [ros Eo]]. rewrite Eo. cbn [fst ss_st ss_sess]. split; [exact I'|].
+      intros id0 s0 [E|H]; [|apply (Ho id0); exact H]. inversion E. subst id0 s0. clear E.
       match goal with |- sess_ok _ (mkSe _ _ ?k _ _) => set (keys' := k) end.
       pose proof (load_user_clean (ss_st ss) (se_user s) chs ros (se_feed s) keys' I Eo) as C.
-      split; [|split; [|intros _; exact C]].
-      * subst keys'. cbn [covers se_user se_keys se_view snd].
-        destruct (se_feed s).
-        -- destruct (set_eqb (snd (se_view s)) ros) eqn:Es; [|apply refresh_keys_covers; exact Cu].
-           split; [exact Cu|]. intros r Hr. apply Cr. apply (proj1 (set_eqb_spec _ _) Es). exact Hr.
-        -- apply refresh_keys_covers. exact Cu.
-      * destruct C as [ur [lch0 [lro0 [E _]]]]. cbn [se_user ss_st] in *. congruence.
-    + exfalso. pose proof (load_user_correct (ss_st ss) (se_user s) I) as [_ Hc].
-      destruct (users (ss_st ss) (se_user s)); [destruct Hc as [? [? [Hc _]]]; congruence | congruence].
-    + exfalso. pose proof (load_user_correct (ss_st ss) (se_user s) I) as [_ Hc].
-      destruct (users (ss_st ss) (se_user s)); [destruct Hc as [? [? [Hc _]]]; congruence | congruence].
+      split; [|intros _ _; exact C].
+      subst keys'. cbn [covers se_user se_keys se_view snd].
+      destruct (se_feed s).
+      * destruct (set_eqb (snd (se_view s)) ros) eqn:Es; [|apply refresh_keys_covers; exact Cu].
+        split; [exact Cu|]. intros r Hr. apply Cr. apply (proj1 (set_eqb_spec _ _) Es). exact Hr.
+      * apply refresh_keys_covers. exact Cu.
+    + (* the user is gone: the feed terminates, the BLIP request fails and the connection keeps its user object *)
+      rewrite Sh. destruct (load_missing_user _ _ Eu) as [Est _].
+      destruct (se_feed s); cbn [fst ss_st ss_sess]; (split; [exact I'|]); [exact Ho|].
+      intros id0 s0 [E|H]; [|apply (Ho id0); exact H]. inversion E. subst id0 s0. clear E.
+      split; [split; assumption|]. cbn [se_dirty se_user]. intros _ Hex. exfalso. apply Hex. rewrite Est. exact Eu.
 Qed.
 
-Lemma srun_SInv ops : forall ss, forallb notified_op ops = true -> SInv ss -> SInv (srun ss ops).
+Lemma srun_SInv ops : forall ss, forallb notified_op ops = true -> SInv ss -> SInv (srun true ss ops).
 Proof.
   induction ops as [|o ops IH]; intros ss Hn I; cbn [srun forallb] in *; [exact I|].
   apply andb_true_iff in Hn. destruct Hn as [H1 H2]. apply IH; [exact H2 | apply sstep_SInv; assumption].
@@ -298,20 +248,62 @@ Qed.
 Lemma SInv_init : SInv sinit.
 Proof. split; [exact Inv_init | intros id s []]. Qed.
 
-(* the next request of an open session is answered with what a fresh request (a load in the current state) gets *)
+(* the next request of an open session whose user exists is answered with what a fresh request (a load in the current
+   state) gets *)
 Lemma session_request_fresh ss id s :
-  SInv ss -> find_sess id (ss_sess ss) = Some s ->
-  exists chs ros, snd (sstep ss (SRequest id)) = SView (Some (chs, ros)) /\
+  SInv ss -> find_sess id (ss_sess ss) = Some s -> users (ss_st ss) (se_user s) <> None ->
+  exists chs ros, snd (sstep true ss (SRequest id)) = SView (Some (chs, ros)) /\
                   out_equiv (OUser (Some (chs, ros))) (snd (load_user (ss_st ss) (se_user s))).
 Proof.
-  intros [I Hs] Ef. pose proof (find_sess_in _ _ _ Ef) as Hin. destruct (Hs id s Hin) as [_ [Hex Hc]].
+  intros [I Hs] Ef Hex. pose proof (find_sess_in _ _ _ Ef) as Hin. destruct (Hs id s Hin) as [_ Hc].
   pose proof (load_user_correct (ss_st ss) (se_user s) I) as [_ Hl].
   destruct (users (ss_st ss) (se_user s)) as [ur|] eqn:Eu; [|congruence].
   destruct Hl as [chs0 [ros0 [E0 [Hch Hro]]]].
   cbn [sstep]. unfold s_request. rewrite Ef. destruct (se_dirty s) eqn:Ed.
   - rewrite E0. exists chs0, ros0. split; [reflexivity|]. cbn [out_equiv]. split; intros x; reflexivity.
-  - destruct (Hc eq_refl) as [ur1 [lch [lro [E1 [_ [Elro [_ [Hv Hr]]]]]]]]. rewrite Eu in E1. inversion E1. subst ur1.
+  - destruct (Hc eq_refl ltac:(congruence)) as [ur1 [lch [lro [E1 [_ [Elro [_ [Hv Hr]]]]]]]]. rewrite Eu in E1. inversion E1. subst ur1.
     destruct (se_view s) as [chs ros] eqn:Ev. cbn [fst snd] in *. exists chs, ros. split; [reflexivity|]. rewrite E0. cbn [out_equiv]. split; intros x.
     + rewrite (Hv x), (Hch x). reflexivity.
     + rewrite (Hr x), (Hro x). destruct (inv_users _ I _ ur Eu) as [_ G2]. apply (G2 lro Elro).
+Qed.
+
+(* a session whose user was deleted: when it is dirty its next request FAILS (the reconnect error of refreshUser /
+   the terminating entry of the feed) instead of being authorized with the cached user *)
+Lemma session_request_deleted_user ss id s :
+  find_sess id (ss_sess ss) = Some s -> users (ss_st ss) (se_user s) = None -> se_dirty s = true ->
+  snd (sstep true ss (SRequest id)) = SErr.
+Proof.
+  intros Ef Eu Ed. cbn [sstep]. unfold s_request. rewrite Ef, Ed. destruct (load_missing_user _ _ Eu) as [_ Eo]. rewrite Eo.
+  destruct (se_feed s); reflexivity.
+Qed.
+
+(* ... and the deletion of its user makes every open session of that user dirty *)
+Lemma find_sess_mark_all id st st' l :
+  find_sess id (mark_all true st st' l) = option_map (mark true st st') (find_sess id l).
+Proof.
+  induction l as [|e l IH]; [reflexivity|]. cbn [mark_all map find_sess fst snd]. destruct (fst e =? id); [reflexivity | exact IH].
+Qed.
+
+Lemma user_delete_wakes_session ss id s :
+  SInv ss -> find_sess id (ss_sess ss) = Some s -> users (ss_st ss) (se_user s) <> None ->
+  let ss' := fst (sstep true ss (SBase (DelUser (se_user s)))) in
+  users (ss_st ss') (se_user s) = None /\
+  exists s', find_sess id (ss_sess ss') = Some s' /\ se_user s' = se_user s /\ se_dirty s' = true /\
+             snd (sstep true ss' (SRequest id)) = SErr.
+Proof.
+  intros [I Hs] Ef Hex ss'. pose proof (find_sess_in _ _ _ Ef) as Hin. destruct (Hs id s Hin) as [[Cu _] _].
+  assert (Eu' : users (ss_st ss') (se_user s) = None).
+  { subst ss'. cbn [sstep fst ss_st step]. unfold del_user.
+    destruct (rebuild_user (ss_st ss) (se_user s)) as [st1 our] eqn:Er.
+    pose proof (users_after_rebuild (ss_st ss) (se_user s)) as Ua. rewrite Er in Ua. cbn [fst snd] in Ua.
+    destruct our as [ur|]; cbn [fst set_users users]; [apply upd_same|].
+    exfalso. apply Hex. unfold rebuild_user in Er. destruct (users (ss_st ss) (se_user s)); [discriminate | reflexivity]. }
+  split; [exact Eu'|].
+  assert (Ef' : find_sess id (ss_sess ss') = Some (mark true (ss_st ss) (ss_st ss') s)).
+  { subst ss'. cbn [sstep fst ss_sess ss_st]. rewrite find_sess_mark_all, Ef. reflexivity. }
+  exists (mark true (ss_st ss) (ss_st ss') s). split; [exact Ef'|]. split; [reflexivity|].
+  assert (Ed : se_dirty (mark true (ss_st ss) (ss_st ss') s) = true).
+  { cbn [mark se_dirty]. apply orb_true_iff. right. apply existsb_exists. exists (PU (se_user s)). split; [exact Cu|].
+    cbn [changed_doc andb]. rewrite Eu'. destruct (users (ss_st ss) (se_user s)); [reflexivity | congruence]. }
+  split; [exact Ed|]. apply (session_request_deleted_user ss' id _ Ef'); [exact Eu' | exact Ed].
 Qed.
